@@ -631,7 +631,7 @@ pub fn one_prog(prog: &AProg, k: usize, seed: u64, iters: usize, acc: &mut Acc) 
 
 pub fn run(r: &mut Report) {
     let mut rng = Rng::new(r.seed ^ 0xC17);
-    let nprogs = if r.quick() { 300 } else { 3000 };
+    let nprogs = if r.quick() { 800 } else { 3000 };
     let iters = if r.quick() { 100 } else { 400 };
     let mut items: Vec<(AProg, usize, u64)> = vec![];
     for p in deadlock_progs() {
